@@ -136,6 +136,9 @@ func DataKeyRange() (minKey, maxKey Key) {
 func DataInstanceKeyRange(d dvid.InstanceID) (minKey, maxKey Key) {
 	minKey = append([]byte{dataKeyPrefix}, d.Bytes()...)
 	maxKey = append([]byte{dataKeyPrefix}, (d + 1).Bytes()...) // still less than first key of next instance
+	if d == dvid.MaxInstanceID {
+		maxKey = []byte{dataKeyPrefix + 1} // d + 1 wraps to 0: use the end of the data key space instead
+	}
 	return minKey, maxKey
 }
 
@@ -470,6 +473,9 @@ func (ctx *DataContext) KeyRange() (min, max Key) {
 	min = append([]byte{dataKeyPrefix}, id.Bytes()...)
 	id++
 	max = append([]byte{dataKeyPrefix}, id.Bytes()...)
+	if id == 0 {
+		max = []byte{dataKeyPrefix + 1} // the maximum instance id wrapped: use the end of the data key space instead
+	}
 	return min, max
 }
 
